@@ -177,6 +177,40 @@ func VerifHarness_NoRouteNoDial() {
 	zz.Reach("no-route")
 }
 
+// A client that reached Gate through a load balancer speaking the PROXY protocol: the connection Lite
+// gets is the listener's wrapper, whose remote address is the client's real one. With the route's
+// PROXY protocol on, the header sent to the backend carries that address, and the client's bytes are
+// piped through the wrapper.
+func VerifHarness_ProxiedClientAddressReachesBackend() {
+	zz.MaxLen(4)
+	zz.Unwind(300)
+	zzFixedClock()
+	sm := NewStrategyManager()
+	route := config.Route{Host: []string{"*"}, Backend: []string{"backend.host:25566"}, ProxyProtocol: true}
+	clientAddr := &net.TCPAddr{IP: net.IPv4(203, 0, 113, 7), Port: 50123}
+	client := &zzFwdClient{conn: &zzPipeConn{remote: clientAddr, in: zz.Bytes(zz.Choose(3))}, buffered: zz.Bytes(zz.Choose(2)), proxied: true}
+	later := append([]byte{}, client.conn.in...)
+	buffered := append([]byte{}, client.buffered...)
+	d := &zzDialer{fromBackend: zz.Bytes(zz.Choose(2))}
+	d.install()
+	hs := &packet.Handshake{ProtocolVersion: 767, ServerAddress: "play.example", Port: 25565, NextStatus: 2}
+	original := append([]byte{0}, zz.Bytes(1+zz.Choose(2))...)
+	pc := &proto.PacketContext{Direction: proto.ServerBound, Protocol: 767, PacketID: 0, Packet: hs, Payload: append([]byte{}, original...)}
+	Forward(time.Second, []config.Route{route}, logr.Discard(), client, hs, pc, sm)
+	zz.WaitAll()
+	zz.Assert(len(d.dialed) == 1, "the route's backend was not dialed exactly once")
+	got := d.backends["backend.host:25566"].out
+	hdr := []byte{0x0d, 0x0a, 0x0d, 0x0a, 0x00, 0x0d, 0x0a, 0x51, 0x55, 0x49, 0x54, 0x0a, 0x21, 0x21, 0x00, 0x24,
+		0, 0, 0, 0, 0, 0, 0, 0, 0, 0, 0xff, 0xff, 203, 0, 113, 7,
+		0, 0, 0, 0, 0, 0, 0, 0, 0, 0, 0xff, 0xff, 10, 9, 9, 9,
+		0xc3, 0xcb, 0x63, 0xde}
+	zz.Assert(len(got) >= len(hdr) && bytes.Equal(got[:len(hdr)], hdr), "the PROXY protocol header does not carry the client's real address (the one the listener's wrapper reports)")
+	rest := got[len(hdr):]
+	want := append(append(append([]byte{byte(len(original))}, original...), buffered...), later...)
+	zz.Assert(bytes.Equal(rest, want), "the backend did not receive the handshake and the client's bytes behind the PROXY header")
+	zz.Reach("proxied-client")
+}
+
 func VerifMutant_Forward() {
 	zzFixedClock()
 	sm := NewStrategyManager()
